@@ -2,11 +2,11 @@
 // (C04 panic-freedom / invariant, C08 ChMaskCntl table, C09 channel selection + frequency tables, C10 RX1 pairing)
 // @inject file=lorawan-device/src/region/fixed_channel_plans/join_channels.rs mod=verif_fixed
 // @job pkg=lorawan-device zflags=function-contracts,stubbing
-// @requires common_tape dev_region_dyn
+// @requires common_tape dev_region
 use super::*;
 use super::super::*;
 use crate::verif_tape as tape;
-use crate::region::dynamic_channel_plans::verif_dyn::TapeRng;
+use crate::region::verif_region::TapeRng;
 
 pub(crate) fn bit(m: &ChannelMask<9>, i: usize) -> bool { (m.get_index(i >> 3) >> (i & 7)) & 1 == 1 }
 /// the transmit path can find a channel for data rate `dr`: a 500 kHz rate needs one of 64..71, any other one of 0..63
